@@ -341,7 +341,7 @@ Proof.
   - apply Z.leb_le in T. destruct (dec_nonneg k T) as (_ & Dg & NE). destruct (SS_digits _ NE Dg) as (f & l & S & Ff & Fl).
     exists 88, l. split; [|split; [reflexivity|apply digit_isL; exact Fl]].
     apply (SS_app [88; 95] (dec k) 88 95 f l); [ss_fixed|exact S|apply us_digit; exact Ff].
-  - apply Z.leb_le in T. destruct (dec_nonneg k T) as (_ & Dg & NE). destruct (SS_digits _ NE Dg) as (f & l & S & Ff & Fl).
+  - apply andb_prop in T as [T _]. apply Z.leb_le in T. destruct (dec_nonneg k T) as (_ & Dg & NE). destruct (SS_digits _ NE Dg) as (f & l & S & Ff & Fl).
     exists f, l. split; [exact S|]. split; [apply digit_isF; exact Ff|apply digit_isL; exact Fl].
   - unfold lit_ok in T. apply andb_prop in T as [T T5]. apply andb_prop in T as [T T4]. apply andb_prop in T as [T T3]. apply andb_prop in T as [T1 T2].
     destruct t as [|c t']; [discriminate T4|]. exists c, (last0 (c :: t')). split; [|split].
@@ -423,7 +423,7 @@ Proof.
   induction e as [k|k|t|f a IHa|a IHa b IHb|a IHa b IHb|n pr w a IHa b IHb|a IHa b IHb]; intros T; pose proof T as T0; cbn [text_ok] in T; cbn [render].
   - apply Z.leb_le in T. destruct (dec_nonneg k T) as (_ & Dg & _).
     rewrite replace2_app by (right; unfold last0; cbn; lia). rewrite (replace_digits _ Dg). reflexivity.
-  - apply Z.leb_le in T. destruct (dec_nonneg k T) as (_ & Dg & _). apply replace_digits; exact Dg.
+  - apply andb_prop in T as [T _]. apply Z.leb_le in T. destruct (dec_nonneg k T) as (_ & Dg & _). apply replace_digits; exact Dg.
   - unfold lit_ok in T. apply andb_prop in T as [T _]. apply andb_prop in T as [T _]. apply andb_prop in T as [T _]. apply andb_prop in T as [T1 _].
     apply replace2_id, no_pair_absent. eapply forallb_weaken; [|exact T1]. unfold lit_char, is_digit. intros x Hx. lia.
   - apply andb_prop in T as [Tf Ta].
@@ -483,7 +483,7 @@ Proof.
   induction e as [k|k|t|f a IHa|a IHa b IHb|a IHa b IHb|n pr w a IHa b IHb|a IHa b IHb]; intros T rest; cbn [text_ok] in T; cbn [render toks_text].
   - apply Z.leb_le in T. destruct (dec_nonneg k T) as (_ & Dg & NE).
     apply atom_tokens; [discriminate|]. cbn [app forallb]. rewrite (forallb_weaken _ _ _ digit_plain Dg). reflexivity.
-  - apply Z.leb_le in T. destruct (dec_nonneg k T) as (_ & Dg & NE).
+  - apply andb_prop in T as [T _]. apply Z.leb_le in T. destruct (dec_nonneg k T) as (_ & Dg & NE).
     apply atom_tokens; [exact NE|]. apply (forallb_weaken _ _ _ digit_plain Dg).
   - unfold lit_ok in T. apply andb_prop in T as [T _]. apply andb_prop in T as [T T4]. apply andb_prop in T as [T _]. apply andb_prop in T as [T1 _].
     apply atom_tokens; [destruct t; [discriminate T4|discriminate]|]. apply (forallb_weaken _ _ _ lit_plain T1).
@@ -590,7 +590,7 @@ Theorem classify_toks e : text_ok e = true -> (forall t, In t (p_lits e) -> isf 
 Proof.
   induction e as [k|k|t|f a IHa|a IHa b IHb|a IHa b IHb|n pr w a IHa b IHb|a IHa b IHb]; intros T L; cbn [text_ok] in T; cbn [toks_text toks p_lits] in *.
   - cbn [map]. rewrite classify_var by (apply Z.leb_le; exact T). reflexivity.
-  - cbn [map]. rewrite classify_int by (apply Z.leb_le; exact T). reflexivity.
+  - apply andb_prop in T as [T _]. cbn [map]. rewrite classify_int by (apply Z.leb_le; exact T). reflexivity.
   - cbn [map]. rewrite classify_lit; [reflexivity|exact T|apply L; left; reflexivity].
   - apply andb_prop in T as [Tf Ta]. rewrite !map_app. pose proof (IHa Ta L) as Ea. unfold str in *. rewrite Ea.
     cbn [existsb] in Tf. unfold SIN, COS, SINH, COSH, EXPONENTIAL, LOGARITHM, ABS, SQRT in Tf.
